@@ -142,6 +142,8 @@ int main(int argc, char **argv)
     auto seed = rnd_seed(rng, 20);
     // flavour "zt": pick the key so that the file's tag has a 0x00 byte before its last byte - the
     // input on which a comparison that stops at a NUL (strncmp, strlen-bounded memcmp) goes wrong
+    if (std::string(argv[argc - 1]) == "zk")
+      key[(n + cm + T) % 15] = 0; // a key with an embedded NUL: C-string handling of the key truncates it
     bool zerotag = std::string(argv[argc - 1]) == "zt";
     for (int tries = 0; zerotag && tries < 4000; ++tries)
     {
@@ -258,6 +260,20 @@ int main(int argc, char **argv)
             add("zero-prefix-forgery", p, tries, t);
             break;
           }
+        }
+        // a file that verifies but was not produced by encryption: 1..15 bytes appended, tag recomputed
+        for (int k : {1, 7, 15})
+        {
+          auto t = C;
+          auto r = rng.bytes(k);
+          t.insert(t.end(), r.begin(), r.end());
+          MemFile mf(t);
+          hmac hh;
+          hh.writeFileHmac(hm, mf.f, (u8_t *)key.data(), 48, 10);
+          fflush(mf.f);
+          std::vector<u8_t> t2 = mf.bytes();
+          fclose(mf.f);
+          mk("retag", "append-retag", C.size(), k, t2, key, P, key, C);
         }
         // splice: header (incl. tag) of this file, body of another file made with the same key
         {
